@@ -215,19 +215,29 @@ def task(arg):
                 if gstate == "reseeded-differently":
                     np.random.seed(1)
                     random.seed(1)
-                a = trajectory(cfg, seed, mon, after=retune if gstate == "earlier-simulation-retuned" else None)
+                ival = int(decode_seed(seed))
+                skind = "numpy-integer-seed" if isinstance(seed, str) else "seed-zero" if ival == 0 else "seed>=2^63" if ival >= 2**63 else "seed"
+                where = f"{name} table {cfg.get('table', cfg.get('scheme', ''))} seed {seed} global generators {gstate}"
+                try:
+                    a = trajectory(cfg, seed, mon, after=retune if gstate == "earlier-simulation-retuned" else None)
+                except Exception as e:  # noqa: BLE001
+                    mon.armed = False
+                    V(f"C06/{name}/{skind}/exception:{type(e).__name__}", f"building or running the simulation raised {type(e).__name__}: {e}; {where}"[:300])
+                    continue
                 if gstate == "reseeded-differently":
                     np.random.seed(2)
                     random.seed(2)
                 elif gstate == "consumed-between":
                     np.random.random(7)
                     random.random()
-                b = trajectory(cfg, seed, mon)
+                try:
+                    b = trajectory(cfg, seed, mon)
+                except Exception as e:  # noqa: BLE001
+                    mon.armed = False
+                    V(f"C06/{name}/{skind}/exception:{type(e).__name__}", f"building or running the second simulation raised {type(e).__name__}: {e}; {where}"[:300])
+                    continue
                 if gstate != "untouched":
                     counters["nontrivial"] += 1
-                where = f"{name} table {cfg.get('table', cfg.get('scheme', ''))} seed {seed} global generators {gstate}"
-                ival = int(decode_seed(seed))
-                skind = "numpy-integer-seed" if isinstance(seed, str) else "seed-zero" if ival == 0 else "seed>=2^63" if ival >= 2**63 else "seed"
                 if a[2] is not None and int(a[2]) != ival:
                     V(f"C06/{name}/{skind}/seed-replaced", f"simulation built with seed {seed} uses seed {a[2]}; {where}")
                 if a[0] != b[0]:
